@@ -361,6 +361,10 @@ type frame struct {
 	depth   int
 	prev    *ssa.BasicBlock
 	up      *frame
+	// sub maps the parameters of a spliced callee to the caller's values (already resolved in the caller's frame);
+	// phis holds, for the phis of the blocks entered on this path, the edge value chosen by the path.
+	sub  map[ssa.Value]ssa.Value
+	phis map[*ssa.Phi]ssa.Value
 }
 
 // readInfo is what a path knows about one read of Session.state: the set of values
@@ -374,9 +378,11 @@ type pstate struct {
 	events []Event
 	conds  map[ssa.Value]bool
 	reads  map[ssa.Value]readInfo
-	st     StateSet
-	epoch  int
-	steps  int
+	// alias maps the result of a spliced call to the value the callee returned on this path (tuple results per component)
+	alias map[ssa.Value][]ssa.Value
+	st    StateSet
+	epoch int
+	steps int
 }
 
 func (p *pstate) fork() *pstate {
@@ -390,7 +396,55 @@ func (p *pstate) fork() *pstate {
 	for k, v := range p.reads {
 		q.reads[k] = v
 	}
+	q.alias = make(map[ssa.Value][]ssa.Value, len(p.alias))
+	for k, v := range p.alias {
+		q.alias[k] = v
+	}
 	return q
+}
+
+// resolve reads a value in terms of the root function where the path determines it: a parameter of a spliced callee is the
+// caller's argument, a phi is the edge the path came through, the result of a spliced call is what the callee returned.
+func (t *Tracer) resolve(fr *frame, p *pstate, v ssa.Value) ssa.Value {
+	for i := 0; i < 12 && v != nil; i++ {
+		switch x := v.(type) {
+		case *ssa.Parameter:
+			if a, ok := fr.sub[x]; ok {
+				v = a
+				continue
+			}
+		case *ssa.Phi:
+			for f := fr; f != nil; f = f.up {
+				if a, ok := f.phis[x]; ok {
+					v = a
+					break
+				}
+			}
+			if v != ssa.Value(x) {
+				continue
+			}
+		case *ssa.Call:
+			if a, ok := p.alias[x]; ok && len(a) == 1 {
+				v = a[0]
+				continue
+			}
+		case *ssa.Extract:
+			if a, ok := p.alias[x.Tuple]; ok && x.Index < len(a) {
+				v = a[x.Index]
+				continue
+			}
+		}
+		break
+	}
+	return v
+}
+
+func (t *Tracer) resolveAll(fr *frame, p *pstate, vs []ssa.Value) []ssa.Value {
+	out := make([]ssa.Value, len(vs))
+	for i, v := range vs {
+		out[i] = t.resolve(fr, p, v)
+	}
+	return out
 }
 
 // Tracer enumerates traces.
@@ -413,8 +467,8 @@ func (t *Tracer) Traces(fn *ssa.Function, entry StateSet) []*Trace {
 	if fn == nil || len(fn.Blocks) == 0 {
 		return nil
 	}
-	st := &pstate{conds: map[ssa.Value]bool{}, reads: map[ssa.Value]readInfo{}, st: t.M.Close(entry)}
-	fr := &frame{fn: fn, visited: map[*ssa.BasicBlock]bool{}}
+	st := &pstate{conds: map[ssa.Value]bool{}, reads: map[ssa.Value]readInfo{}, alias: map[ssa.Value][]ssa.Value{}, st: t.M.Close(entry)}
+	fr := &frame{fn: fn, visited: map[*ssa.BasicBlock]bool{}, sub: map[ssa.Value]ssa.Value{}, phis: map[*ssa.Phi]ssa.Value{}}
 	t.walk(fr, fn.Blocks[0], 0, st, func(p *pstate) {
 		if t.paths >= t.MaxPaths {
 			t.Overflow = true
@@ -465,6 +519,47 @@ func (t *Tracer) walk(fr *frame, b *ssa.BasicBlock, i int, p *pstate, k func(*ps
 		}
 		fr.visited[b] = true
 		defer func() { fr.visited[b] = false }()
+		// the phis of this block take the value of the edge the path came through
+		if fr.prev != nil {
+			idx := -1
+			for j, pr := range b.Preds {
+				if pr == fr.prev {
+					idx = j
+				}
+			}
+			if idx >= 0 {
+				type saved struct {
+					phi *ssa.Phi
+					old ssa.Value
+					had bool
+				}
+				var sv []saved
+				var vals []ssa.Value
+				var phis []*ssa.Phi
+				for _, in := range b.Instrs {
+					phi, ok := in.(*ssa.Phi)
+					if !ok {
+						break
+					}
+					phis = append(phis, phi)
+					vals = append(vals, t.resolve(fr, p, phi.Edges[idx])) // all edges are read before any phi is updated
+				}
+				for j, phi := range phis {
+					old, had := fr.phis[phi]
+					sv = append(sv, saved{phi, old, had})
+					fr.phis[phi] = vals[j]
+				}
+				defer func() {
+					for _, x := range sv {
+						if x.had {
+							fr.phis[x.phi] = x.old
+						} else {
+							delete(fr.phis, x.phi)
+						}
+					}
+				}()
+			}
+		}
 	}
 	for ; i < len(b.Instrs); i++ {
 		in := b.Instrs[i]
@@ -499,7 +594,7 @@ func (t *Tracer) walk(fr *frame, b *ssa.BasicBlock, i int, p *pstate, k func(*ps
 			if fn != nil {
 				name = fn.Name()
 			}
-			t.emit(p, fr, Event{Kind: "spawn", Name: name, Instr: x, Args: x.Call.Args})
+			t.emit(p, fr, Event{Kind: "spawn", Name: name, Instr: x, Args: t.resolveAll(fr, p, x.Call.Args)})
 			if fn == nil || fn.Parent() == nil {
 				// `go f(x)` with a named callee: its effects (sends, state changes) are attributed to this trace;
 				// a closure body is analysed as a root of its own.
@@ -511,13 +606,13 @@ func (t *Tracer) walk(fr *frame, b *ssa.BasicBlock, i int, p *pstate, k func(*ps
 		case *ssa.Store:
 			if fa, ok := x.Addr.(*ssa.FieldAddr); ok && FieldOf(fa) == t.M.StateField {
 				to := int64(-1)
-				if c, ok := ConstInt(x.Val); ok {
+				if c, ok := ConstInt(t.resolve(fr, p, x.Val)); ok {
 					to = c
 				}
 				t.emit(p, fr, Event{Kind: "state", Name: t.M.StateNames[to] + "(direct store)", Instr: x, To: to, Trigger: 0})
 			} else if fa, ok := x.Addr.(*ssa.FieldAddr); ok && t.M.isSessionVal(fa.X) {
 				if f := FieldOf(fa); f != nil {
-					t.emit(p, fr, Event{Kind: "setfield", Name: f.Name(), Instr: x, Args: []ssa.Value{x.Val}})
+					t.emit(p, fr, Event{Kind: "setfield", Name: f.Name(), Instr: x, Args: []ssa.Value{t.resolve(fr, p, x.Val)}})
 				}
 			}
 		case *ssa.UnOp:
@@ -561,11 +656,12 @@ func (t *Tracer) runDefers(fr *frame, idx int, b *ssa.BasicBlock, next int, p *p
 
 func (t *Tracer) doReturn(fr *frame, r *ssa.Return, p *pstate, k func(*pstate)) {
 	ret := ""
-	for j, v := range r.Results {
+	results := t.resolveAll(fr, p, r.Results)
+	for j, v := range results {
 		if j > 0 {
 			ret += ","
 		}
-		switch c := v.(type) {
+		switch c := Unspill(v).(type) {
 		case *ssa.Const:
 			if c.Value == nil {
 				ret += "nil"
@@ -576,7 +672,7 @@ func (t *Tracer) doReturn(fr *frame, r *ssa.Return, p *pstate, k func(*pstate)) 
 			ret += "?"
 		}
 	}
-	t.emit(p, fr, Event{Kind: "return", Instr: r, Ret: ret, Args: r.Results})
+	t.emit(p, fr, Event{Kind: "return", Instr: r, Ret: ret, Args: results})
 	k(p)
 }
 
@@ -587,21 +683,30 @@ func (t *Tracer) branch(fr *frame, b *ssa.BasicBlock, x *ssa.If, p *pstate, k fu
 		if side {
 			q = p.fork()
 		}
-		base, pol := x.Cond, true
+		base, pol := t.resolve(fr, q, x.Cond), true
 		for {
 			u, ok := base.(*ssa.UnOp)
 			if !ok || u.Op != token.NOT {
 				break
 			}
-			base, pol = u.X, !pol
+			base, pol = t.resolve(fr, q, u.X), !pol
 		}
-		if known, ok := q.conds[base]; ok && (known == pol) != side {
-			if side {
-				continue
+		if cb, isConst := ConstBool(base); isConst {
+			if (cb == pol) != side {
+				if side {
+					continue
+				}
+				return
 			}
-			return
+		} else {
+			if known, ok := q.conds[base]; ok && (known == pol) != side {
+				if side {
+					continue
+				}
+				return
+			}
+			q.conds[base] = side == pol
 		}
-		q.conds[base] = side == pol
 		if !t.refine(fr, x.Cond, side, q) {
 			if side {
 				continue
@@ -621,6 +726,10 @@ func (t *Tracer) branch(fr *frame, b *ssa.BasicBlock, x *ssa.If, p *pstate, k fu
 
 // refine interprets condition cond being `val` on this path. Returns false if the path is infeasible.
 func (t *Tracer) refine(fr *frame, cond ssa.Value, val bool, p *pstate) bool {
+	cond = t.resolve(fr, p, cond)
+	if b, ok := ConstBool(cond); ok {
+		return b == val // a constant returned by a spliced callee decides the branch
+	}
 	switch c := cond.(type) {
 	case *ssa.UnOp:
 		if c.Op == token.NOT {
@@ -634,9 +743,13 @@ func (t *Tracer) refine(fr *frame, cond ssa.Value, val bool, p *pstate) bool {
 			return true
 		}
 		eq := val == (c.Op == token.EQL)
-		x, y := c.X, c.Y
+		x, y := t.resolve(fr, p, c.X), t.resolve(fr, p, c.Y)
 		if _, isC := x.(*ssa.Const); isC {
 			x, y = y, x
+		}
+		// a value the path knows to be nil (the nil a spliced callee returned) compared with nil
+		if IsNilConst(y) && IsNilConst(x) {
+			return eq
 		}
 		// error/nil tests on event results
 		if IsNilConst(y) {
@@ -755,8 +868,10 @@ func (t *Tracer) callCommon(fr *frame, in ssa.Instruction, cc *ssa.CallCommon, v
 		if e.Args == nil {
 			e.Args = cc.Args
 		}
+		e.Args = t.resolveAll(fr, p, e.Args)
 		t.emit(p, fr, e)
 	}
+	rarg := func(i int) ssa.Value { return t.resolve(fr, p, cc.Args[i]) }
 	// --- interface invocations
 	if cc.IsInvoke() {
 		recvT := cc.Value.Type()
@@ -769,7 +884,7 @@ func (t *Tracer) callCommon(fr *frame, in ssa.Instruction, cc *ssa.CallCommon, v
 			case "Send", "SendRaw":
 				kinds := []string{"Raw"}
 				if name == "Send" {
-					kinds = m.MsgKindOf(cc.Args[0], nil)
+					kinds = m.MsgKindOf(rarg(0), nil)
 				}
 				ev(Event{Kind: "send", Name: "Router." + name, Kinds: kinds})
 			case "SendBatch":
@@ -777,9 +892,9 @@ func (t *Tracer) callCommon(fr *frame, in ssa.Instruction, cc *ssa.CallCommon, v
 			case "Stop":
 				ev(Event{Kind: "cancel", Name: "Router.Stop"})
 			case "HandleIncoming":
-				ev(Event{Kind: "handle-in", Name: m.MsgTypeKey(cc.Args[0])})
+				ev(Event{Kind: "handle-in", Name: m.MsgTypeKey(rarg(0))})
 			case "HandleOutgoing":
-				ev(Event{Kind: "handle-out", Name: m.MsgTypeKey(cc.Args[0])})
+				ev(Event{Kind: "handle-out", Name: m.MsgTypeKey(rarg(0))})
 			case "Context":
 			default:
 				ev(Event{Kind: "router", Name: name})
@@ -790,7 +905,7 @@ func (t *Tracer) callCommon(fr *frame, in ssa.Instruction, cc *ssa.CallCommon, v
 			// builder getters / setters and anything else through interfaces of session/messages
 			if n := NamedOf(recvT); n != nil && n.Obj().Pkg() != nil && strings.HasSuffix(n.Obj().Pkg().Path(), "/session/messages") {
 				if strings.HasPrefix(name, "SetField") {
-					ev(Event{Kind: "set", Name: name, Args: append([]ssa.Value{cc.Value}, cc.Args...)})
+					ev(Event{Kind: "set", Name: name, Args: append([]ssa.Value{t.resolve(fr, p, cc.Value)}, cc.Args...)})
 				}
 				return false
 			}
@@ -825,13 +940,13 @@ func (t *Tracer) callCommon(fr *frame, in ssa.Instruction, cc *ssa.CallCommon, v
 	if idx, ok := m.StateWriters[fn]; ok {
 		to := int64(-1)
 		if idx >= 0 && idx < len(cc.Args) {
-			if c, ok := ConstInt(cc.Args[idx]); ok {
+			if c, ok := ConstInt(rarg(idx)); ok {
 				to = c
 			}
 		}
 		trig := -1
 		if ti := m.TriggerParam[fn]; ti >= 0 && ti < len(cc.Args) {
-			if bv, ok := ConstBool(cc.Args[ti]); ok {
+			if bv, ok := ConstBool(rarg(ti)); ok {
 				if bv {
 					trig = 1
 				} else {
@@ -867,7 +982,7 @@ func (t *Tracer) callCommon(fr *frame, in ssa.Instruction, cc *ssa.CallCommon, v
 	case pkgPath == m.PkgPath && recvName == "Session":
 		switch fn.Name() {
 		case "send", "sendWithErrorCheck", "Send":
-			ev(Event{Kind: "send", Name: fn.Name(), Kinds: m.MsgKindOf(cc.Args[1], nil)})
+			ev(Event{Kind: "send", Name: fn.Name(), Kinds: m.MsgKindOf(rarg(1), nil)})
 			return false
 		case "checkLogonParams":
 			ev(Event{Kind: "check", Name: "params"})
@@ -879,7 +994,7 @@ func (t *Tracer) callCommon(fr *frame, in ssa.Instruction, cc *ssa.CallCommon, v
 			ev(Event{Kind: "mkreject"})
 			return false
 		case "OnChangeState":
-			ev(Event{Kind: "register", Name: eventName(cc.Args[1])})
+			ev(Event{Kind: "register", Name: eventName(rarg(1))})
 			return false
 		}
 	case strings.HasSuffix(pkgPath, "/utils") && recvName == "EventHandlerPool":
@@ -911,14 +1026,45 @@ func (t *Tracer) callCommon(fr *frame, in ssa.Instruction, cc *ssa.CallCommon, v
 			return false
 		}
 		ev(Event{Kind: "enter", Name: fn.Name()})
-		nf := &frame{fn: fn, visited: map[*ssa.BasicBlock]bool{}, depth: fr.depth + 1, up: fr}
+		nf := &frame{fn: fn, visited: map[*ssa.BasicBlock]bool{}, depth: fr.depth + 1, up: fr, sub: map[ssa.Value]ssa.Value{}, phis: map[*ssa.Phi]ssa.Value{}}
+		for i, prm := range fn.Params {
+			if i < len(cc.Args) {
+				nf.sub[prm] = rarg(i)
+			}
+		}
 		t.walk(nf, fn.Blocks[0], 0, p, func(q *pstate) {
-			// callee path ended (return / panic / loopback); a constant boolean result decides the caller's branch on it
+			// callee path ended (return / panic / loopback); a constant boolean result decides the caller's branch on it,
+			// any other result is known to the caller as the value the callee returned
 			if val != nil && len(q.events) > 0 {
 				last := q.events[len(q.events)-1]
-				if last.Kind == "return" && last.Depth == nf.depth && len(last.Args) == 1 {
-					if b, ok := ConstBool(Unspill(last.Args[0])); ok {
-						q.conds[val] = b
+				if last.Kind == "return" && last.Depth == nf.depth {
+					if len(last.Args) == 1 {
+						if b, ok := ConstBool(Unspill(last.Args[0])); ok {
+							q.conds[val] = b
+						}
+					}
+					if len(last.Args) >= 1 {
+						// results that are constants, results of calls or values of the caller are known to the caller as such;
+						// anything the callee builds itself (a literal, an expression) stays behind the call value
+						res := make([]ssa.Value, len(last.Args))
+						okAll := true
+						for i, a := range last.Args {
+							u := Unspill(a)
+							switch y := Unwrap(u).(type) {
+							case *ssa.Const, *ssa.Call, *ssa.Extract:
+							default:
+								if vi, isI := y.(ssa.Instruction); isI && vi.Parent() == nf.fn {
+									okAll = false
+								}
+								if _, isP := y.(*ssa.Parameter); isP {
+									okAll = false
+								}
+							}
+							res[i] = u
+						}
+						if okAll {
+							q.alias[val] = res
+						}
 					}
 				}
 			}
